@@ -315,6 +315,108 @@ inline void prop_c04_api(const vf::Case& c, Ctx& ctx)
         ctx.label("foreign-row-rejected");
         return;
     }
+    // ---- 0..3 preliminary steps on the SAME handle: observers and simple single-field setters whose effect on the layout tokens is
+    // known exactly (so that state a handle may keep between calls - caches, stale copies - is exercised before the final setter)
+    std::vector<Toks> exp = toks;
+    size_t ncues0 = qc.quick_cues.size(), nloops0 = lp.loops.size();
+    size_t flag_idx = 1 + 6 * ncues0 + 1;
+    std::string prelim;
+    size_t nprelim = h.below(4);
+    for (size_t step = 0; step < nprelim; ++step)
+    {
+        try
+        {
+            switch (h.below(12))
+            {
+                case 0: (void)tr.snapshot(); prelim += " snapshot()"; break;
+                case 1: (void)tr.key(); (void)tr.sample_rate(); (void)tr.sample_count(); prelim += " key()/sample_rate()/sample_count()"; break;
+                case 2: (void)tr.average_loudness(); (void)tr.main_cue(); prelim += " average_loudness()/main_cue()"; break;
+                case 3: (void)tr.hot_cues(); (void)tr.loops(); (void)tr.beatgrid(); (void)tr.waveform(); prelim += " hot_cues()/loops()/beatgrid()/waveform()"; break;
+                case 4:
+                {
+                    auto k = static_cast<dj::musical_key>(h.below(24));
+                    tr.set_key(k);
+                    exp[0][2] = sc(static_cast<uint64_t>(static_cast<int64_t>(static_cast<int32_t>(k))));
+                    prelim += " set_key(" + std::to_string(static_cast<int>(k)) + ")";
+                    break;
+                }
+                case 5:
+                {
+                    unsigned long long n = 1000 + h.below(100000000);
+                    tr.set_sample_count(n);
+                    exp[0][1] = sc(n);
+                    exp[2][1] = sc(ref::f2u(static_cast<double>(n)));
+                    prelim += " set_sample_count(" + std::to_string(n) + ")";
+                    break;
+                }
+                case 6:
+                {
+                    double r = h.coin() ? 48000.0 : 22050.0 + static_cast<double>(h.below(1000));
+                    tr.set_sample_rate(r);
+                    exp[0][0] = sc(ref::f2u(r));
+                    exp[2][0] = sc(ref::f2u(r));
+                    prelim += " set_sample_rate(" + std::to_string(r) + ")";
+                    break;
+                }
+                case 7:
+                {
+                    double l = static_cast<double>(1 + h.below(999)) / 1000.0;
+                    tr.set_average_loudness(l);
+                    exp[0][3] = exp[0][4] = exp[0][5] = sc(ref::f2u(l));
+                    prelim += " set_average_loudness(" + std::to_string(l) + ")";
+                    break;
+                }
+                case 8:
+                {
+                    double v = 100.0 + static_cast<double>(h.below(100000));
+                    tr.set_main_cue(v);
+                    exp[3][1 + 6 * ncues0] = sc(ref::f2u(v));
+                    exp[3][flag_idx] = sc(1);
+                    exp[3][flag_idx + 1] = sc(ref::f2u(v));
+                    prelim += " set_main_cue(" + std::to_string(v) + ")";
+                    break;
+                }
+                case 9:
+                {
+                    if (ncues0 == 0)
+                        break;
+                    size_t i = h.below(std::min<size_t>(ncues0, 8));
+                    dj::hot_cue cue{"p" + std::to_string(step), 50.0 + static_cast<double>(h.below(1000)), e::standard_pad_colors::pads[h.below(8)]};
+                    tr.set_hot_cue_at(static_cast<int>(i), cue);
+                    Toks one;
+                    push_cue(one, cue);
+                    for (size_t k = 0; k < 6; ++k)
+                        exp[3][1 + 6 * i + k] = one[k];
+                    if (exp[3][flag_idx].v > 1)
+                        exp[3][flag_idx] = sc(1);
+                    prelim += " set_hot_cue_at(" + std::to_string(i) + ")";
+                    break;
+                }
+                case 10:
+                {
+                    if (nloops0 == 0)
+                        break;
+                    size_t i = h.below(std::min<size_t>(nloops0, 8));
+                    dj::loop l{"q" + std::to_string(step), 10.0 + static_cast<double>(h.below(1000)), 5000.0, e::standard_pad_colors::pads[h.below(8)]};
+                    tr.set_loop_at(static_cast<int>(i), l);
+                    Toks one;
+                    push_loop(one, l);
+                    for (size_t k = 0; k < 9; ++k)
+                        exp[4][1 + 9 * i + k] = one[k];
+                    prelim += " set_loop_at(" + std::to_string(i) + ")";
+                    break;
+                }
+                default: tr.set_title(std::string("t") + std::to_string(step)); tr.set_rating(40); prelim += " set_title/set_rating"; break;
+            }
+        }
+        catch (const std::exception& ex)
+        {
+            VF_CHECK(false, "a simple accessor on a track with foreign blobs threw after" << prelim << ": " << ex.what());
+        }
+    }
+    if (nprelim >= 2)
+        ctx.label("multi-step");
+    toks = exp;  // the final setter is judged against the state the preliminary steps must have produced
     // one single-field setter
     static const std::vector<SetterTouch> menu = {{"main_cue", 3},     {"hot_cue_at", 3},  {"hot_cues", 3},     {"loop_at", 4},          {"loops", 4},  {"key", 0},
                                                   {"sample_count", 0}, {"sample_rate", 0}, {"average_loudness", 0}, {"beatgrid", 2}, {"waveform", 1}, {"title", -1},
@@ -406,7 +508,7 @@ inline void prop_c04_api(const vf::Case& c, Ctx& ctx)
     }
     ctx.describe = "schema " + sname(schema) + " foreign blobs (cues " + std::to_string(ncues) + ", loops " + std::to_string(nloops) + ", flag " + std::to_string(flag) +
                    ", tails " + std::to_string(td.extra_data.size()) + "/" + std::to_string(ov.extra_data.size()) + "/" + std::to_string(bd.extra_data.size()) + "/" +
-                   std::to_string(qc.extra_data.size()) + "/" + std::to_string(lp.extra_data.size()) + ") then set_" + desc;
+                   std::to_string(qc.extra_data.size()) + "/" + std::to_string(lp.extra_data.size()) + ")" + (prelim.empty() ? std::string() : " after" + prelim) + " then set_" + desc;
     ctx.key = ctx.describe;
     ctx.nontrivial = foreign && !threw;
     auto after = raw_blobs(conn, true, tr.id());
